@@ -207,10 +207,47 @@ pub fn run_c09(ctx: &Ctx) -> (Report, String) {
         let mut rng = Rng::new(ctx.seed ^ 0xC09, w as u64);
         for h in 1..=maxd {
             for s in &strengths {
-                for content in 0..5 {
+                for content in 0..8 {
                     let mut d = vec![0u8; w * h];
                     match content {
                         0 => rng.fill(&mut d),
+                        5 | 6 => {
+                            // runs of identical rows (5) or columns (6), 1-8 thick, cycling through two or three
+                            // line patterns at a random phase (groups of lines that are equal in pairs but not all equal)
+                            let t = *rng.pick(&[1usize, 2, 2, 3, 4, 8]);
+                            let m = 2 + rng.below(2) as usize;
+                            let phase = rng.below(8) as usize;
+                            let len = if content == 5 { w } else { h };
+                            let lines: Vec<Vec<u8>> = (0..m)
+                                .map(|_| {
+                                    if rng.chance(1, 2) {
+                                        vec![*rng.pick(&[0u8, 255, 40, 200, 128, 131]); len]
+                                    } else {
+                                        let mut l = vec![0u8; len];
+                                        rng.fill(&mut l);
+                                        l
+                                    }
+                                })
+                                .collect();
+                            for (i, v) in d.iter_mut().enumerate() {
+                                let (x, y) = (i % w, i / w);
+                                *v = if content == 5 { lines[((y + phase) / t) % m][x] } else { lines[((x + phase) / t) % m][y] };
+                            }
+                        }
+                        7 => {
+                            // one-sample stripes and the 1x1 checkerboard at full contrast
+                            let kind = rng.below(3);
+                            let pol = rng.below(2) as usize;
+                            for (i, v) in d.iter_mut().enumerate() {
+                                let (x, y) = (i % w, i / w);
+                                let bit = match kind {
+                                    0 => x % 2,
+                                    1 => y % 2,
+                                    _ => (x + y) % 2,
+                                };
+                                *v = if bit == pol { 255 } else { 0 };
+                            }
+                        }
                         1 => {
                             for (i, v) in d.iter_mut().enumerate() {
                                 *v = if ((i % w) / 2 + (i / w) / 2) % 2 == 0 { 0 } else { 255 };
@@ -274,7 +311,7 @@ pub fn run_c09(ctx: &Ctx) -> (Report, String) {
         total.require("kernel_patterns_vertical", 3_000_000);
         total.require("gradient=negative", 100_000);
         total.require("gradient=positive", 100_000);
-        total.require("geometry_images", (maxd * maxd * strengths.len() * 5) as u64);
+        total.require("geometry_images", (maxd * maxd * strengths.len() * 8) as u64);
     }
     if total.exhaustive.is_none() {
         total.exhaustive = Some(false);
